@@ -32,12 +32,17 @@ RULE = (
 )
 ASSUMPTIONS = [
     "insertion happens at token boundaries (never inside a Twp/Rge token or a number)",
+    "the documented minimum block length (MIN_REPORTABLE_UNUSED_LEN = 4) is taken as each mechanism states it: on the raw block "
+    "incl. its blanks in examine_unused (so a 3-letter word between blanks is reportable), on the cleaned block in "
+    "rebuild_sec_within (so the 3-letter marker is not used under sec_within); words of 1-2 letters are outside the alphabet",
 ]
 
 MARKERS = ['QXZV', 'Zyxwvut']
 # markers that end in letters which are also connector words (a clean-up that strips 'and' / 'in' / 'of' / 'the' must not
 # bite into an ordinary word); used on the intact, colon-less, lead and trail variants
 TAIL_MARKERS = ['Woodland', 'Franklin', 'Thereof', 'Bathe']
+# a three-letter word: with its two blanks the raw block reaches MIN_REPORTABLE_UNUSED_LEN, so it is reportable as well
+SHORT_MARKERS = ['QXZ']
 _TRAPS = None
 
 
@@ -60,7 +65,7 @@ EXTRA_SEEDS = [
 _p = None
 # a marker that is followed, on the same line and within the reach of the meridian pattern ('.{0,25}' plus filler), by a
 # P.M. designation may be discarded together with it (exempt by the statement); the predicate is deliberately a superset
-PM_WINDOW = re.compile(r'(QXZV|Zyxwvut|Woodland|Franklin|Thereof|Bathe|Qx[a-z]+xq)[^\n]{0,45}?(?<![A-Za-z])(P\.\s?M\.|Principal\s+Meridian)',
+PM_WINDOW = re.compile(r'(QXZV?|Zyxwvut|Woodland|Franklin|Thereof|Bathe|Qx[a-z]+xq)[^\n]{0,45}?(?<![A-Za-z])(P\.\s?M\.|Principal\s+Meridian)',
                        re.IGNORECASE)
 CONNECTORS = {'the', 'of', 'in', 'and', 'all'}
 
@@ -225,6 +230,9 @@ def run_unit(unit, tier):
                 if vname in ('intact', 'nocolon', 'lead', 'trail'):
                     for marker in TAIL_MARKERS:
                         judge(acc, unit['seed'], vname, toks, pos, marker, mode, seen)
+                    if 'sec_within' not in (mode or ''):
+                        for marker in SHORT_MARKERS:
+                            judge(acc, unit['seed'], vname, toks, pos, marker, mode, seen)
                 if vname == 'intact' and mode in (None, 'segment', 'sec_within'):
                     for marker in trap_markers():
                         judge(acc, unit['seed'], vname, toks, pos, marker, mode, seen)
